@@ -204,6 +204,25 @@ pub mod proofs {
         assert!(src.pos == 4, "P: exactly one source frame pulled per output");
         assert!(det.verif_gains() == direct.verif_gains() && det.verif_last_env()[0].to_bits() == direct.verif_last_env()[0].to_bits());
     }
+    /// never negative, never NaN: i16 frames (float companion f32, squares NOT exact: rounding can absorb a small square into a
+    /// large running sum), window 2, every history x1, x2, 0, 0 — the running sum of squares must not go below zero when the
+    /// large square leaves the window
+    #[kani::proof] #[kani::unwind(6)]
+    pub fn c11_b_rms_never_negative_i16() {
+        let mut r: Rms<[i16; 1], [[f32; 1]; 2]> = Rms::new(rb::Fixed::from([[0.0f32; 1]; 2]));
+        let x1: i16 = kani::any(); let x2: i16 = kani::any();
+        let hist = [x1, x2, 0, 0];
+        let mut i = 0;
+        while i < 4 {
+            let sq = r.next_squared([hist[i]])[0];
+            assert!(sq >= 0.0, "P: mean square negative");
+            let rms = r.current()[0];
+            assert!(rms >= 0.0 && !rms.is_nan(), "P: RMS negative or NaN for finite input");
+            i += 1;
+        }
+        kani::cover!(x1 == i16::MIN && x2 == 1, "large then tiny sample");
+    }
+
     /// the rms adaptor feeds EACH source frame once, in order, to the running RMS
     #[kani::proof] #[kani::unwind(7)]
     pub fn c11_adaptor_rms() {
